@@ -80,7 +80,19 @@ let payload_of_int v = n_of_int (v + 1)
 
 type parsed = { cmd : cmd option; quiet_all : bool; taint_self : bool }
 
-let parse_cmd (code : string) (fs : string list) : parsed =
+(* the sender's own bookkeeping, as in the harness: the SUBSCRIBE: names it holds (as spelled) and, per subscription entry
+   (adjusted path), the filter text; an explicit GETDATA whose keys are all subscriptions it holds (same path, same filter,
+   distinct) keeps the mirror statement applicable (cmd_covered), any other one does not *)
+type book = { names : (string, unit) Hashtbl.t; flts : (string, string) Hashtbl.t }
+let new_book () = { names = Hashtbl.create 8; flts = Hashtbl.create 8 }
+let canon_sub (s : string) : string =
+  if String.length s > 0 && s.[0] = '/' then String.sub s 1 (String.length s - 1) else "*/*/" ^ s
+let raw_split (s : string) : string * string =
+  match String.index_opt s '@' with
+  | None -> (s, "")
+  | Some i -> (String.sub s 0 i, String.sub s (i+1) (String.length s - i - 1))
+
+let parse_cmd (bk : book) (code : string) (fs : string list) : parsed =
   let nth k = match List.nth_opt fs k with Some x -> x | None -> "" in
   match code with
   | "s" ->
@@ -97,15 +109,29 @@ let parse_cmd (code : string) (fs : string list) : parsed =
     { cmd = Some (CRemoveData (q, ks)); quiet_all = q; taint_self = false }
   | "g" ->
     let ks = List.map (fun s -> let (p, f) = split_sub s in (spath_of p, f)) (items (nth 0)) in
-    { cmd = Some (CGetData ks); quiet_all = false; taint_self = true }
+    let seen = Hashtbl.create 8 in
+    let covered = List.for_all (fun s ->
+        let (p, f) = raw_split s in
+        let c = canon_sub p in
+        let ok = p <> "" && not (Hashtbl.mem seen c) && (match Hashtbl.find_opt bk.flts c with Some f' -> f' = f | None -> false) in
+        Hashtbl.replace seen c (); ok) (items (nth 0)) in
+    { cmd = Some (CGetData ks); quiet_all = false; taint_self = not covered }
   | "p" ->
     let q = (nth 0 = "1") in
     let seen = Hashtbl.create 8 in
     let ks = List.filter_map (fun s -> let (p, f) = split_sub s in
-                               if Hashtbl.mem seen p then None else (Hashtbl.add seen p (); Some (spath_of p, f))) (items (nth 1)) in
+                               if Hashtbl.mem seen p then None
+                               else begin
+                                 Hashtbl.add seen p ();
+                                 Hashtbl.replace bk.names p ();
+                                 Hashtbl.replace bk.flts (canon_sub p) (snd (raw_split s));
+                                 Some (spath_of p, f)
+                               end) (items (nth 1)) in
     { cmd = Some (CSubscribe (q, ks)); quiet_all = false; taint_self = q }
   | "m" -> { cmd = Some (CSetMax (z_of_int (try int_of_string (nth 0) with _ -> 0))); quiet_all = false; taint_self = false }
-  | "u" -> { cmd = Some (CUnsubscribe (List.map spath_of (items (nth 0)))); quiet_all = false; taint_self = false }
+  | "u" ->
+    List.iter (fun p -> if Hashtbl.mem bk.names p then begin Hashtbl.remove bk.names p; Hashtbl.remove bk.flts (canon_sub p) end) (items (nth 0));
+    { cmd = Some (CUnsubscribe (List.map spath_of (items (nth 0)))); quiet_all = false; taint_self = false }
   | "um" -> { cmd = Some CResetMax; quiet_all = false; taint_self = false }
   | _ -> { cmd = None; quiet_all = false; taint_self = false }
 
@@ -135,6 +161,8 @@ let () =
       let nsess = ref 0 in
       let quiet_used = ref false in
       let tainted : (int, unit) Hashtbl.t = Hashtbl.create 8 in
+      let books : (int, book) Hashtbl.t = Hashtbl.create 8 in
+      let book_of k = (match Hashtbl.find_opt books k with Some b -> b | None -> let b = new_book () in Hashtbl.replace books k b; b) in
       let host = intern "H" in
       List.iteri (fun j op ->
         let f = split ':' op in
@@ -152,14 +180,14 @@ let () =
             let subs = (match List.nth_opt f 2 with Some x when x <> "" -> split '+' x | _ -> []) in
             let cmds = List.filter_map (fun so ->
                 let sf = split '~' so in
-                let pr = parse_cmd (List.hd sf) (List.tl sf) in
+                let pr = parse_cmd (book_of kk) (List.hd sf) (List.tl sf) in
                 if pr.quiet_all then quiet_used := true;
                 if pr.taint_self then Hashtbl.replace tainted kk ();
                 pr.cmd) subs in
             (true, Some (ECmd (n_of_int kk, CBatch cmds)))
           end
           else begin
-            let pr = parse_cmd code (match f with _ :: _ :: r -> r | _ -> []) in
+            let pr = parse_cmd (book_of kk) code (match f with _ :: _ :: r -> r | _ -> []) in
             if pr.quiet_all then quiet_used := true;
             if pr.taint_self then Hashtbl.replace tainted kk ();
             match pr.cmd with Some c -> (true, Some (ECmd (n_of_int kk, c))) | None -> (false, None)
